@@ -1633,6 +1633,14 @@ impl FunctionCompiler<'_> {
                     self.exits.insert(scope_id, exit_block);
                 }
 
+                // loops don't have defers of their own, but `break` and `continue` have to know
+                // which defers belong to blocks inside of the loop (the condition can be a block
+                // that jumps as well)
+                self.defer_stack.push(DeferFrame {
+                    id: self.world_bodies[self.loc.file()].block_to_scope_id(expr),
+                    defers: Vec::new(),
+                });
+
                 self.builder.ins().jump(header_block, &[]);
                 self.builder.switch_to_block(header_block);
                 // don't seal the header yet
@@ -1649,13 +1657,6 @@ impl FunctionCompiler<'_> {
 
                 self.builder.switch_to_block(body_block);
                 self.builder.seal_block(body_block);
-
-                // loops don't have defers of their own, but `break` and `continue` have to know
-                // which defers belong to blocks inside of the loop
-                self.defer_stack.push(DeferFrame {
-                    id: self.world_bodies[self.loc.file()].block_to_scope_id(expr),
-                    defers: Vec::new(),
-                });
 
                 self.compile_expr(body);
 
